@@ -17,7 +17,7 @@ func init() {
 	register(&Check{
 		ID:    "C02",
 		Title: "Everything WriteTo emits is a structurally valid MQTT v5.0 frame",
-		Level: "exploration",
+		Level: "model_checking",
 		Rule: "the C01 enumeration (strata S0-S3, all 15 types) restricted to packets that are well formed by MQTT's own rules and keep the default protocol name/version; " +
 			"each is built through the public API, written with WriteTo (the frame must reach the writer in one Write call), and the emitted bytes are judged by the strict specification decoder (package spec: written from the OASIS text, no code or constant shared with the library): " +
 			"it must accept, consume the frame exactly, and decode exactly the values that were set (absent property = zero value). " +
